@@ -466,6 +466,9 @@ struct C05State {
   bool first_before_create_return = false, last_ref_dropped_before_start = false, unref_vs_exit_overlap = false;
   vector<bool> started;
   vector<bool> create_returned;
+  // keys=..f: every thread parks on this gate after its TLS operations, main then releases all key REFERENCES ("doesn't remove the TLS
+  // key itself") and opens the gate: values still held must be destroyed exactly once when their threads exit
+  bool keyfree = false; pthread_mutex_t gm; pthread_cond_t g_arrive, g_open; int arrived = 0; bool gate_open = false;
 };
 C05State *g5 = nullptr;
 void c05_notifier(ppointer p) {
@@ -476,7 +479,7 @@ void c05_notifier(ppointer p) {
 bool parse_c05(const string &p, C05State &g) {
   auto w = vl::split_ws(p);
   size_t i = 0;
-  if (i < w.size() && w[i].rfind("keys=", 0) == 0) { string ks = w[i].substr(5); g.nkeys = (int)ks.size(); for (char ch : ks) g.key_has_notifier.push_back(ch == '1'); i++; }
+  if (i < w.size() && w[i].rfind("keys=", 0) == 0) { string ks = w[i].substr(5); if (!ks.empty() && ks.back() == 'f') { g.keyfree = true; ks.pop_back(); } g.nkeys = (int)ks.size(); for (char ch : ks) g.key_has_notifier.push_back(ch == '1'); i++; }
   TSpec *cur = nullptr; bool in_main = false;
   for (; i < w.size(); i++) {
     const string &t = w[i];
@@ -524,6 +527,11 @@ ppointer c05_body(ppointer arg) {
     }
   }
   g.result[(size_t)ti] = 4242 + ti;
+  if (g.keyfree) {
+    vs_pthread_mutex_lock(&g.gm); g.arrived++; vs_pthread_cond_broadcast(&g.g_arrive);
+    while (!g.gate_open) vs_pthread_cond_wait(&g.g_open, &g.gm);
+    vs_pthread_mutex_unlock(&g.gm);
+  }
   // values left at exit must be destroyed exactly once (if the key has a notifier)
   for (int k = 0; k < g.nkeys; k++) if (g.cur[(size_t)ti][(size_t)k]) g.cur[(size_t)ti][(size_t)k]->expect_destroy = g.key_has_notifier[(size_t)k] != 0;
   g.body_done[(size_t)ti] = true;
@@ -649,6 +657,7 @@ void run_child(const Case &c) {
     for (int k = 0; k < g.nkeys; k++) g.keys.push_back(p_uthread_local_new(g.key_has_notifier[(size_t)k] ? c05_notifier : NULL));
     size_t live0 = va::live_count();
     vs::begin(c.sched, false, 0);
+    if (g.keyfree) { vs_pthread_mutex_init(&g.gm, NULL); vs_pthread_cond_init(&g.g_arrive, NULL); vs_pthread_cond_init(&g.g_open, NULL); }
     static const char *names[] = {NULL, "thr", "a-very-long-thread-name-over-15-chars"};
     for (size_t i = 0; i < n; i++) {
       PUThread *h = p_uthread_create(c05_body, (ppointer)(long)i, g.specs[i].joinable ? TRUE : FALSE, names[g.specs[i].name % 3]);
@@ -656,6 +665,11 @@ void run_child(const Case &c) {
       g.handles[i] = h; g.main_refs[i] = 1; g.create_returned[i] = true;
       if (i == 0) vs::S().point_hooks.push_back(c05_hook);
       vs::point(false);
+    }
+    if (g.keyfree) {
+      vs_pthread_mutex_lock(&g.gm); while (g.arrived < (int)n) vs_pthread_cond_wait(&g.g_arrive, &g.gm); vs_pthread_mutex_unlock(&g.gm);
+      for (int k = 0; k < g.nkeys; k++) { vs::point(false); p_uthread_local_free(g.keys[(size_t)k]); g.keys[(size_t)k] = NULL; }
+      vs_pthread_mutex_lock(&g.gm); g.gate_open = true; vs_pthread_cond_broadcast(&g.g_open); vs_pthread_mutex_unlock(&g.gm);
     }
     for (auto &o : g.main_ops) {
       vs::point(false);
@@ -700,7 +714,7 @@ void run_child(const Case &c) {
     for (size_t i = 0; i < n; i++) if (block_live(g.handles[i])) child_fail("handle-leak", "thread handle " + std::to_string(i) + " is still allocated after the last reference was dropped and the thread finished");
     if (va::st().frees_of_unknown) child_fail("handle-double-free", "a block was released twice (or a foreign pointer was passed to p_free)");
     // handle blocks and everything else allocated by thread machinery must be gone
-    for (int k = 0; k < g.nkeys; k++) p_uthread_local_free(g.keys[(size_t)k]);
+    for (int k = 0; k < g.nkeys; k++) if (g.keys[(size_t)k]) p_uthread_local_free(g.keys[(size_t)k]);
     long left = (long)va::live_count() - (long)live0;
     dprintf(g_out, "STAT residual_blocks %ld\n", left);
     nontrivial = g.first_before_create_return || g.last_ref_dropped_before_start || g.unref_vs_exit_overlap;
@@ -832,7 +846,7 @@ rc::Gen<Case> genC05() {
     for (auto &o : std::get<4>(t)) os << ' ' << o;
     return os.str(); });
   auto mop = gen::map(gen::tuple(gen::weightedElement<char>({{3, 'j'}, {4, 'u'}, {2, 'f'}, {1, 'y'}}), rng(0, 4)), [](const std::tuple<char, int> &t) { std::ostringstream os; os << std::get<0>(t) << std::get<1>(t); return os.str(); });
-  return gen::map(gen::tuple(rng(1, 4), gen::container<vector<string>>(3, thr), gen::resize(6, gen::container<vector<string>>(mop)), gen::element<string>("1", "0", "11", "10", "101"), genScheduleLong()),
+  return gen::map(gen::tuple(rng(1, 4), gen::container<vector<string>>(3, thr), gen::resize(6, gen::container<vector<string>>(mop)), gen::element<string>("1", "0", "11", "10", "101", "1f", "11f", "10f"), genScheduleLong()),
                   [](const std::tuple<int, vector<string>, vector<string>, string, vector<uint8_t>> &x) {
                     Case c; c.prop = "C05";
                     std::ostringstream os; os << "keys=" << std::get<3>(x);
@@ -905,7 +919,7 @@ vector<Case> shapes_for(const string &prop) {
   } else if (prop == "C04") {
     for (const char *p : {"int init=0 | a1 a1 | a1 a1", "int init=2 | d d | d", "int init=0 | c0,1 | c0,2 | g", "int init=2147483647 | i | a1 | g", "ptr init=0 | o1 | o2 | x3", "int init=1 | d | i d"}) { Case c; c.prop = "C04"; c.prog = p; v.push_back(c); }
   } else if (prop == "C05") {
-    for (const char *p : {"keys=1 | t 1 0 r s0,1 | m u0", "keys=1 | t 1 1 e7 s0,1 r0,1 | m j0 u0", "keys=1 | t 0 0 r s0,1 | m u0", "keys=10 | t 1 2 e-1 s0,1 s1,1 | t 0 0 r r0,1 | m f0 u0 j0 u0 u1"}) { Case c; c.prop = "C05"; c.prog = p; v.push_back(c); }
+    for (const char *p : {"keys=1 | t 1 0 r s0,1 | m u0", "keys=1 | t 1 1 e7 s0,1 r0,1 | m j0 u0", "keys=1 | t 0 0 r s0,1 | m u0", "keys=10 | t 1 2 e-1 s0,1 s1,1 | t 0 0 r r0,1 | m f0 u0 j0 u0 u1", "keys=11f | t 1 0 r s0,1 r1,1 | t 0 1 e3 s1,1 | m u1 j0"}) { Case c; c.prop = "C05"; c.prog = p; v.push_back(c); }
   }
   return v;
 }
